@@ -95,6 +95,27 @@ def loop_body_order_sensitivity(repo, fi: FuncInfo, loop: ast.For) -> list[str]:
     return reasons
 
 
+def _kw_given(name: str):
+    return lambda fi, call: any(k.arg == name for k in call.keywords)
+
+
+def _has_string_arg(prefix: str):
+    def test(fi: FuncInfo, call: ast.Call) -> bool:
+        exprs = list(call.args)
+        for a in call.args:
+            if isinstance(a, ast.Name):
+                exprs += [x.value for x in ast.walk(fi.node) if isinstance(x, ast.Assign) and any(isinstance(t, ast.Name) and t.id == a.id for t in x.targets)]
+        return any(isinstance(c, ast.Constant) and isinstance(c.value, str) and c.value.startswith(prefix) for e in exprs for c in ast.walk(e))
+    return test
+
+
+# (library file, library function, ambient expression it reads, (module prefix, callee), what pins it, test on the repository's call)
+AMBIENT_LIBRARY_ENTRIES = [
+    ("_griffe/finder.py", "ModuleFinder.__init__", "sys.path", ("griffe", "load"), "an explicit search_paths argument", _kw_given("search_paths")),
+    ("mypy/config_parser.py", "_find_config_file", "os.getcwd()", ("mypy", "process_options"), "a --config-file option", _has_string_arg("--config-file")),
+]
+
+
 def check(ctx: Ctx, col: Collector, tier: str) -> None:
     repo = ctx.repo
     col.spec("C08.UNORDERED-ITER", "the output does not change with the string-hash seed: every iteration over a set is order-insensitive by construction or passes a sort first",
@@ -274,6 +295,29 @@ def check(ctx: Ctx, col: Collector, tier: str) -> None:
                     key = f"{rel}::{fi.qualname}::hash::{ast.unparse(n)[:40]}"
                     (col.ok if good else col.bad)("C08.AMBIENT", key, repo.loc(rel, n), "hash(...) only compared for equality" if good else f"`{ast.unparse(par)[:60]}`",
                                                   *([] if good else [f"{fi.qualname} uses a hash value (seed dependent) for more than an equality test"]))
+    # library entry points that consult ambient state unless an argument pins it (facts read from the installed library sources)
+    from ..core.libmodel import reads_ambient
+    for lib_file, lib_fn, ambient, callee, pin_desc, pinned in AMBIENT_LIBRARY_ENTRIES:
+        if not reads_ambient(lib_file, lib_fn, ambient):
+            raise AnalysisError(f"{lib_fn} in {lib_file} no longer reads {ambient}; re-triage the library entry {callee}")
+        sites = []
+        for rel, mi in repo.modules.items():
+            for fi in mi.functions.values():
+                for n in ast.walk(fi.node):
+                    if isinstance(n, ast.Call) and (getattr(n.func, "attr", None) or getattr(n.func, "id", None)) == callee[1] \
+                            and (mi.imports.get(n.func.id, ("", None))[0].startswith(callee[0]) if isinstance(n.func, ast.Name)
+                                 else mi.imports.get(getattr(n.func.value, "id", ""), ("", None))[0].startswith(callee[0]) or (mi.imports.get(getattr(n.func.value, "id", ""), ("", None))[1] or "").startswith(callee[0].split(".")[-1])):
+                        sites.append((rel, fi, n))
+        if not sites:
+            raise AnalysisError(f"no call of {callee[0]}.{callee[1]} found")
+        for rel, fi, n in sites:
+            col.touched(fi)
+            key = f"{rel}::{fi.qualname}::ambient::{callee[1]}"
+            if pinned(fi, n):
+                col.ok("C08.AMBIENT", key, repo.loc(rel, n), f"{callee[1]}: {pin_desc} is given, so {lib_fn} does not fall back on {ambient}")
+            else:
+                col.bad("C08.AMBIENT", key, repo.loc(rel, n), f"`{ast.unparse(n)[:70]}` without {pin_desc}; {lib_fn} ({lib_file}) then reads {ambient}",
+                        f"{fi.qualname} calls {callee[1]} without {pin_desc}: the library then consults {ambient} ({lib_fn}), so the same package and options give different output from a different working directory")
     col.ok("C08.AMBIENT", "package::importlib.metadata", "src/safeds_stubgen/api_analyzer/_package_metadata.py", "distribution/version are read from the installed environment by design (outside the dimensions the property enumerates)", nontrivial=False)
 
     # ------------------------------------------------------------------ PATH-SPELLING
